@@ -35,8 +35,8 @@ softplus threshold, `tanhT`, `cauchyT`, `logTanhT`), the element-wise layer loop
 BatchNorm in evaluation mode, permutations and squeeze — are in `Properties/C01E.lean`, with counterexample theorems for every
 forced side condition.
 **What no theorem in this namespace covers** (carried by the correspondence run and the Jacobian oracle only): the log-det of
-multiscale (the linear family as Jacobians: `Properties/C01L.lean`, NaiveLinear: `Properties/C01N.lean`),
-UMNN; image-shaped coupling inputs (`S > 1`) have the left-fold form of the log-det but no Jacobian statement; bounded splines are
+multiscale on N-D items (1-D items: `Properties/C01M.lean`; the linear family as Jacobians: `Properties/C01L.lean`, NaiveLinear: `Properties/C01N.lean`),
+UMNN; image-shaped coupling inputs (`S > 1`) have the left-fold form of the log-det here and the Jacobian statement in `Properties/C01M.lean`; bounded splines are
 covered strictly inside bins (cubic and RQ-with-tails also at knots), not at the end-points of the box; per-element derivative
 laws inside layers are discharged for affine, additive and RQ(-tails) elements here and for quadratic / cubic / linear ones in
 `Properties/C01L.lean` (forward pass; knots excluded for quadratic and linear; inverse pass of coupling layers: `Properties/C01V.lean`);
